@@ -548,72 +548,94 @@ fn host_idx(b: &Built, p: *const u8, hint: Option<usize>) -> (u64, u64) {
     (0xffff, 0)
 }
 
-fn query<M: GuestMemory>(m: &M, b: &Built, op: u64, a: u64, x: u64, y: u64) -> Vec<Tok> {
-    // the region that owns guest address a, computed from the case alone
-    let hint = b.lay.iter().position(|&(s, l)| a >= s && ((a - s) as u128) < l as u128);
-    match op {
-        0 => match m.find_region(GuestAddress(a)) {
-            Some(r) => o4(1, idx_of(&b.regs, r as *const M::R as *const u8), 0, 0),
-            None => o4(0, 0, 0, 0),
-        },
-        1 => match m.to_region_addr(GuestAddress(a)) {
-            Some((r, off)) => o4(1, idx_of(&b.regs, r as *const M::R as *const u8), off.raw_value(), 0),
-            None => o4(0, 0, 0, 0),
-        },
-        2 => o4(m.address_in_range(GuestAddress(a)) as u64, 0, 0, 0),
-        3 => opt(m.check_address(GuestAddress(a)).map(|g| g.raw_value())),
-        4 => opt(m.checked_offset(GuestAddress(a), x as usize).map(|g| g.raw_value())),
-        5 => o4(m.check_range(GuestAddress(a), x as usize) as u64, 0, 0, 0),
-        6 => o4(1, m.last_addr().raw_value(), 0, 0),
-        7 => match m.get_host_address(GuestAddress(a)) {
-            Ok(p) => {
-                let (i, off) = host_idx(b, p as *const u8, hint);
-                o4(1, i, off, 0)
-            }
-            Err(e) => o4(2, err_class(&e), 0, 0),
-        },
-        8 => match m.get_slice(GuestAddress(a), x as usize) {
-            Ok(s) => {
-                let (i, off) = host_idx(b, s.ptr_guard().as_ptr(), hint);
-                o4(1, i, off, s.len() as u64)
-            }
-            Err(e) => o4(2, err_class(&e), 0, 0),
-        },
-        9 => {
-            let mut v = o4(1, m.num_regions() as u64, 0, 0);
-            let rs: Vec<&M::R> = m.iter().collect();
-            v.push(Tok::of_u64s(&rs.iter().map(|r| r.start_addr().raw_value()).collect::<Vec<_>>()));
-            v.push(Tok::of_u64s(&rs.iter().map(|r| r.len()).collect::<Vec<_>>()));
-            v
-        }
-        10..=18 => {
-            let rs: Vec<&M::R> = m.iter().collect();
-            let r = rs[a as usize];
-            // pointer - host base of THIS region (mod 2^64): a pointer outside the block shows as an offset >= len
-            let rel = |p: *const u8| (p as usize).wrapping_sub(b.bases[a as usize] as usize) as u64;
+// The query body is instantiated twice.  `query` (generic): a method call can only resolve to the TRAIT method
+// (`<M as GuestMemory>::op`, `<M::R as GuestMemoryRegion>::op`) - the route of the mock implementors and route 1 of the
+// mmap collection.  `query_mmap`: method-call syntax on the concrete `GuestMemoryMmap<()>` / `GuestRegionMmap<()>` with
+// the traits in scope, as a user of the crate writes it - an INHERENT method of the same name shadows the trait method there.
+macro_rules! def_query {
+    ($name:ident, [$($g:tt)*], $M:ty, $R:ty) => {
+        fn $name<$($g)*>(m: &$M, b: &Built, op: u64, a: u64, x: u64, y: u64) -> Vec<Tok> {
+            // the region that owns guest address a, computed from the case alone
+            let hint = b.lay.iter().position(|&(s, l)| a >= s && ((a - s) as u128) < l as u128);
             match op {
-                15 => match r.get_host_address(MemoryRegionAddress(x)) {
-                    Ok(p) => o4(1, rel(p as *const u8), 0, 0),
+                0 => match m.find_region(GuestAddress(a)) {
+                    Some(r) => o4(1, idx_of(&b.regs, r as *const $R as *const u8), 0, 0),
+                    None => o4(0, 0, 0, 0),
+                },
+                1 => match m.to_region_addr(GuestAddress(a)) {
+                    Some((r, off)) => o4(1, idx_of(&b.regs, r as *const $R as *const u8), off.raw_value(), 0),
+                    None => o4(0, 0, 0, 0),
+                },
+                2 => o4(m.address_in_range(GuestAddress(a)) as u64, 0, 0, 0),
+                3 => opt(m.check_address(GuestAddress(a)).map(|g| g.raw_value())),
+                4 => opt(m.checked_offset(GuestAddress(a), x as usize).map(|g| g.raw_value())),
+                5 => o4(m.check_range(GuestAddress(a), x as usize) as u64, 0, 0, 0),
+                6 => o4(1, m.last_addr().raw_value(), 0, 0),
+                7 => match m.get_host_address(GuestAddress(a)) {
+                    Ok(p) => {
+                        let (i, off) = host_idx(b, p as *const u8, hint);
+                        o4(1, i, off, 0)
+                    }
                     Err(e) => o4(2, err_class(&e), 0, 0),
                 },
-                16 => match r.get_slice(MemoryRegionAddress(x), y as usize) {
-                    Ok(s) => o4(1, rel(s.ptr_guard().as_ptr()), s.len() as u64, 0),
+                8 => match m.get_slice(GuestAddress(a), x as usize) {
+                    Ok(s) => {
+                        let (i, off) = host_idx(b, s.ptr_guard().as_ptr(), hint);
+                        o4(1, i, off, s.len() as u64)
+                    }
                     Err(e) => o4(2, err_class(&e), 0, 0),
                 },
-                17 => match r.as_volatile_slice() {
-                    Ok(s) => o4(1, rel(s.ptr_guard().as_ptr()), s.len() as u64, 0),
-                    Err(e) => o4(2, err_class(&e), 0, 0),
-                },
-                18 => o4(r.file_offset().is_some() as u64, 0, 0, 0),
-                10 => o4(1, r.last_addr().raw_value(), 0, 0),
-                11 => o4(r.address_in_range(MemoryRegionAddress(x)) as u64, 0, 0, 0),
-                12 => opt(r.check_address(MemoryRegionAddress(x)).map(|v| v.raw_value())),
-                13 => opt(r.checked_offset(MemoryRegionAddress(x), y as usize).map(|v| v.raw_value())),
-                _ => opt(r.to_region_addr(GuestAddress(x)).map(|v| v.raw_value())),
+                9 => {
+                    let mut v = o4(1, m.num_regions() as u64, 0, 0);
+                    let rs: Vec<&$R> = m.iter().collect();
+                    v.push(Tok::of_u64s(&rs.iter().map(|r| r.start_addr().raw_value()).collect::<Vec<_>>()));
+                    v.push(Tok::of_u64s(&rs.iter().map(|r| r.len()).collect::<Vec<_>>()));
+                    v
+                }
+                10..=18 => {
+                    let rs: Vec<&$R> = m.iter().collect();
+                    let r = rs[a as usize];
+                    // pointer - host base of THIS region (mod 2^64): a pointer outside the block shows as an offset >= len
+                    let rel = |p: *const u8| (p as usize).wrapping_sub(b.bases[a as usize] as usize) as u64;
+                    match op {
+                        15 => match r.get_host_address(MemoryRegionAddress(x)) {
+                            Ok(p) => o4(1, rel(p as *const u8), 0, 0),
+                            Err(e) => o4(2, err_class(&e), 0, 0),
+                        },
+                        16 => match r.get_slice(MemoryRegionAddress(x), y as usize) {
+                            Ok(s) => o4(1, rel(s.ptr_guard().as_ptr()), s.len() as u64, 0),
+                            Err(e) => o4(2, err_class(&e), 0, 0),
+                        },
+                        17 => match r.as_volatile_slice() {
+                            Ok(s) => o4(1, rel(s.ptr_guard().as_ptr()), s.len() as u64, 0),
+                            Err(e) => o4(2, err_class(&e), 0, 0),
+                        },
+                        18 => o4(r.file_offset().is_some() as u64, 0, 0, 0),
+                        10 => o4(1, r.last_addr().raw_value(), 0, 0),
+                        11 => o4(r.address_in_range(MemoryRegionAddress(x)) as u64, 0, 0, 0),
+                        12 => opt(r.check_address(MemoryRegionAddress(x)).map(|v| v.raw_value())),
+                        13 => opt(r.checked_offset(MemoryRegionAddress(x), y as usize).map(|v| v.raw_value())),
+                        _ => opt(r.to_region_addr(GuestAddress(x)).map(|v| v.raw_value())),
+                    }
+                }
+                _ => panic!("bad op"),
             }
         }
-        _ => panic!("bad op"),
+    };
+}
+def_query!(query, [M: GuestMemory], M, M::R);
+def_query!(query_mmap, [], GuestMemoryMmap<()>, GuestRegionMmap<()>);
+
+/// tokens of an observation as one flat list of numbers (for the route-difference observation)
+fn flat(v: &[Tok]) -> Tok {
+    let mut out: Vec<u128> = Vec::new();
+    for t in v {
+        match t {
+            Tok::N(x) => out.push(*x),
+            Tok::L(l) => out.extend(l.iter().copied()),
+        }
     }
+    Tok::L(out)
 }
 
 fn exec(case: &[Tok]) -> Vec<Tok> {
@@ -629,10 +651,30 @@ fn exec(case: &[Tok]) -> Vec<Tok> {
         })
     } else {
         let b = cached(kind, &lay);
-        util::catch(|| match &b.mem {
-            Mem::Mmap(m, _) => query(m, &b, op, a, x, y),
-            Mem::Mock(m) => query(m, &b, op, a, x, y),
-        })
+        match &b.mem {
+            Mem::Mmap(m, _) => {
+                // both routes; identical answers or an observation of kind 0xa that neither the model nor the
+                // checker accepts: a 0 0 0 [trait route's answer] [method-call route's answer]
+                let panicked = || {
+                    let mut v = o4(3, 0, 0, 0);
+                    if op == 9 {
+                        v.push(Tok::L(vec![]));
+                        v.push(Tok::L(vec![]));
+                    }
+                    v
+                };
+                let t = util::catch(|| query(m, &b, op, a, x, y)).unwrap_or_else(panicked);
+                let c = util::catch(|| query_mmap(m, &b, op, a, x, y)).unwrap_or_else(panicked);
+                if t != c {
+                    let mut v = o4(10, 0, 0, 0);
+                    v.push(flat(&t));
+                    v.push(flat(&c));
+                    return v;
+                }
+                Some(t)
+            }
+            Mem::Mock(m) => util::catch(|| query(m, &b, op, a, x, y)),
+        }
     };
     match r {
         Some(v) => v,
